@@ -103,12 +103,16 @@ func javaHash(s string) uint64 {
 	return uint64(h)
 }
 
-const nSpecialStr = 22
+const nSpecialStr = 26
 
 // stringAlphabet builds the string alphabet for a given hash: "a", two keys in
 // a's bucket of the 101-table, one in a's bucket of the 203-table, "", assorted
 // short / multi-byte / long keys, one key colliding with "a" in both tables.
-func stringAlphabet(hash func(string) uint64) []string {
+func stringAlphabet(hash func(string) uint64, twins [4]string) []string {
+	// twins: two pairs of different strings with the same FULL hash (not merely the same bucket)
+	if hash(twins[0]) != hash(twins[1]) || hash(twins[2]) != hash(twins[3]) || twins[0] == twins[1] {
+		panic("string twins do not collide")
+	}
 	base := hash("a")
 	var c101 []string
 	var c203, cboth, zero string
@@ -144,8 +148,8 @@ func stringAlphabet(hash func(string) uint64) []string {
 	if zero == "" {
 		zero = "c-zero-missing"
 	}
-	a := []string{"a", c101[0], c101[1], c203, "", zero, "A", "aa", "ab", "키", " ", "a\x00", "0", "-1",
-		strings.Repeat("long", 75), cboth, "zz", "a ", "\xff\xfe", "B", "ba", "b"}
+	a := []string{"a", c101[0], c101[1], twins[0], twins[1], c203, "", zero, "A", "aa", "ab", "키", " ", "a\x00", "0", "-1",
+		strings.Repeat("long", 75), cboth, "zz", "a ", "\xff\xfe", "B", "ba", "b", twins[2], twins[3]}
 	if len(a) != nSpecialStr {
 		panic("string specials")
 	}
